@@ -363,6 +363,67 @@ pub fn run(ctx: &mut Ctx) -> &'static str {
             }
         }
     }
+    // from_str of the other unit families (`string_deserialize`, as for the speed units): names, near-names
+    macro_rules! unit_from_str {
+        ($fam:expr, $ty:ty, $all:expr) => {{
+            let names: Vec<String> = $all.iter().map(|u| u.to_string()).collect();
+            let mut texts: Vec<String> = names.clone();
+            for t in ["", " ", "Meters", "meters ", " hours", "kwh", "percent\"", "\"", "kilo\twatt_hours", "tons", "KG", "gallons gasoline", "millis", "décimal"] {
+                texts.push(t.to_string());
+            }
+            let extra = ctx.n(4, 100);
+            for k in 0..texts.len() + extra {
+                let Some(idx) = ctx.begin() else { continue };
+                let mut rng = Rng::for_case(ctx.seed, 9, idx as u64);
+                let text = if k < texts.len() {
+                    texts[k].clone()
+                } else {
+                    let mut cs: Vec<char> = names[rng.below(names.len())].chars().collect();
+                    let i = rng.below(cs.len());
+                    match rng.below(3) {
+                        0 => cs[i] = *rng.pick(&['a', 'x', '_', 'S', '-', ' ', '1']),
+                        1 => {
+                            cs.remove(i);
+                        }
+                        _ => cs.insert(i, cs[i]),
+                    }
+                    cs.into_iter().collect()
+                };
+                let r = std::panic::catch_unwind(|| text.parse::<$ty>());
+                let out = match &r {
+                    Ok(Ok(u)) => format!("ok {}", u),
+                    Ok(Err(_)) => "err".to_string(),
+                    Err(_) => "panic".to_string(),
+                };
+                ctx.emit(idx, format!("ustr {} {}", $fam, crate::jsonproto::hex(&text)), out);
+                ctx.count(match &r {
+                    Ok(Ok(_)) => "unit_from_str_ok",
+                    Ok(Err(_)) => "unit_from_str_err",
+                    Err(_) => "unit_from_str_panic",
+                });
+                ctx.nontrivial(&format!("ustr {} {}", $fam, text));
+                match r {
+                    Ok(Ok(u)) => {
+                        if u.to_string() != text {
+                            ctx.fail(idx, "unit/from-str-not-display", format!("{:?} parsed as {}", text, u));
+                        }
+                    }
+                    Ok(Err(_)) => {
+                        if names.contains(&text) {
+                            ctx.fail(idx, "unit/from-str-rejects-name", format!("{:?}", text));
+                        }
+                    }
+                    Err(_) => ctx.fail(idx, "unit/from-str-panic", format!("{:?}", text)),
+                }
+            }
+        }};
+    }
+    unit_from_str!("d", DistanceUnit, D);
+    unit_from_str!("t", TimeUnit, T);
+    unit_from_str!("e", EnergyUnit, E);
+    unit_from_str!("r", EnergyRateUnit, ER);
+    unit_from_str!("g", GradeUnit, G);
+    unit_from_str!("w", WeightUnit, W);
     for su in S.iter() {
         let Some(idx) = ctx.begin() else { continue };
         let v = su.max_american_highway_speed().as_f64();
